@@ -51,7 +51,7 @@ Lemma exec_result_not_io : forall n ip h w v h' w' x d, exec n ip h w v = Done h
 Proof.
   induction n as [|n IH]; intros ip h w v h' w' x d H; [discriminate|].
   unfold exec in H. cbn [bs] in H. rewrite run_is_runG in H.
-  destruct v as [z|fl|b|s|s|l|dc|f|i|sp l| |u]; try (cbn [doio_body runG to_out] in H; inversion H; subst; reflexivity).
+  destruct v as [z|fl|b|s|s|l|dc|f|i|sp l| |u|cr ci]; try (cbn [doio_body runG to_out] in H; inversion H; subst; reflexivity).
   unfold doio_body in H. rewrite runG_bind in H.
   match type of H with to_out (thenG ?o _) = _ => destruct o as [h1 w1 [r|e] d1| |] end; cbn [thenG] in H; try discriminate.
   rewrite runG_bind in H.
